@@ -59,7 +59,8 @@ def table_seeded():
         r = res.get(name, {})
         chk = (r.get("checks") or {}).get(meta["property"], {})
         labels = ", ".join(chk.get("labels", [])[:4]) or "-"
-        summary = meta.get("summary") or re.sub(r"\s+", " ", meta.get("needs_to_manifest", ""))[:160]
+        title = next((l for l in meta.get("needs_to_manifest", "").splitlines() if l.strip()), "")
+        summary = meta.get("summary") or re.sub(r"^#+\s*", "", title).replace("|", "/")[:170]
         n += 1
         c += bool(r.get("caught"))
         fr = "missed: " + INITIALLY_MISSED[name] if name in INITIALLY_MISSED else ("caught" if r.get("caught") else "MISSED")
